@@ -157,6 +157,7 @@ pub fn audit(engine: &Engine) -> i32 {
             }
             let _ = std::fs::remove_file(ctx.world.trace());
             let mut cmd = Command::new("strace");
+            cmd.arg("-E").arg(format!("LD_PRELOAD={}", ctx.bins.shim.display())).arg("-E").arg(format!("VERIF_SIM_PLAN={plan}")).arg("-E").arg("RUST_BACKTRACE=0");
             cmd.args(["-f", "-y", "-qq", "-s", "0", "-o"]).arg(&sout).args(["-e", "trace=open,openat,creat,unlink,unlinkat,rmdir,mkdir,mkdirat,rename,renameat,renameat2,write,writev,pwrite64,ftruncate,truncate,link,linkat,symlink,symlinkat,fsync,fdatasync,copy_file_range,sendfile,splice"]);
             match &spec.kind {
                 NodeKind::Api { .. } => {
@@ -166,7 +167,9 @@ pub fn audit(engine: &Engine) -> i32 {
                     cmd.arg(&ctx.bins.cli).args(args);
                 }
             }
-            cmd.env_clear().env("LD_PRELOAD", &ctx.bins.shim).env("VERIF_SIM_PLAN", &plan).env("RUST_BACKTRACE", "0").current_dir(&root);
+            // the shim must be loaded into the traced node only, never into strace itself (a fake
+            // pid would confuse its wait loop): `-E` sets variables for the tracee
+            cmd.env_clear().current_dir(&root);
             let _ = std::fs::remove_file(ctx.world.res());
             let out = cmd.output();
             if out.is_err() {
